@@ -150,13 +150,26 @@ def run(R):
         X = np.tensordot(a, mt, 1)
         R.count(('array', i), nontrivial=ns > 1)
         ok = out.shape == (nk, nm)
-        if ok and pol:
+        if ok:
+            # reference per station: the translated kernel when there is one, and always the documented mixture itself
+            # p = (1 - w) Phi(X / s) + w Phi(-X / s), evaluated with scipy's erf (independent of the implementation and of the model)
+            def doc(x, sg, ww):
+                if sg == 0:
+                    up = 1.0 if x > 0 else (0.5 if x == 0 else 0.0)
+                else:
+                    up = 0.5 * (1 + float(sp_erf(x / (math.sqrt(2) * sg))))
+                return (1 - ww) * up + ww * (1 - up)
             for k in range(nk):
                 for j in range(nm):
-                    tot = 0.0
+                    tot, tot_doc = 0.0, 0.0
                     for s_ in range(ns):
-                        tot += ln0(pol.evaluate([float(X[s_, k, j]), float(sig[s_]), float(wv[s_]) if w is None else w], funs))
-                    if not close(float(out[k, j]), tot, 1e-9) and not (out[k, j] < -700 and tot < -700):
+                        ws = float(wv[s_]) if w is None else w
+                        if pol:
+                            tot += ln0(pol.evaluate([float(X[s_, k, j]), float(sig[s_]), ws], funs))
+                        tot_doc += ln0(doc(float(X[s_, k, j]), float(sig[s_]), ws))
+                    if pol and not close(float(out[k, j]), tot, 1e-9) and not (out[k, j] < -700 and tot < -700):
+                        ok = False
+                    if not close(float(out[k, j]), tot_doc, 1e-7) and not (out[k, j] < -600 and tot_doc < -600):
                         ok = False
         if not ok:
             R.signal('correspondence', {'kernel': 'polarity_ln_pdf on arrays', 'a': a.tolist(), 'mt': mt.tolist(), 'sigma': sig.tolist(),
